@@ -1264,11 +1264,11 @@ function visitors.VarDecl(context, node, emitter)
         end
       elseif not defined and not vartype.is_comptime and valnode and
                              not valnode.attr.comptime and not lastcallindex then -- could be a call
-        emitter:add_indent_ln(valnode, ';')
+        defemitter:add_indent_ln(valnode, ';')
       end
     elseif not vartype.is_comptime and valnode and
            not valnode.attr.comptime and not lastcallindex then -- could be a call
-      emitter:add_indent_ln(valnode, ';')
+      defemitter:add_indent_ln(valnode, ';')
     elseif valnode and valnode.attr.requirename then -- require call
       local rollbackpos = emitter:get_pos()
       emitter:add_indent()
